@@ -4,7 +4,7 @@ import itertools
 from .. import families as F, monitors as M, stepcheck
 
 MONS = [M.mon_c04]
-SK = (None, 0.0, 1e-11, 1.0)  # missing, zero, below tolerance, positive
+SK = (None, 0.0, 1e-11, 1.0, -0.5)  # missing, zero, below tolerance, positive, negative
 
 
 def items(tier):
